@@ -84,6 +84,14 @@ def r2(ctx):
                   [site_desc(fa, hv[0])])
         ctx.check(P, rule, "events come after the in-memory commit", all(fa.dominates(x, up[0]) for x in bu + sites(fa, MT_COMMIT)), "sends dominated by Bitfield::update and MerkleTree::commit",
                   "an event can be sent before bitfield/tree are committed")
+    cm = sites(fa, MT_COMMIT)
+    ccm = checked(fa, cm[0]) if cm else None
+    if ccm is not None:
+        okrets = [bb for bb, _, t in ok_returns(fa)]
+        for s, k in ((up[0], "DataUpgrade"), (hv[0], "Have")):
+            skip = any(fa.can_reach(ccm["ok"], r, avoiding=[s]) for r in okrets)
+            ctx.check(P, rule, "every successful non-empty append emits the %s event" % k, not skip, "no path from the commit to the Ok return avoids the send",
+                      "a successful non-empty append can return Ok without sending %s: the send at %s is under a further condition" % (k, loc(fa, s)), [site_desc(fa, s)], key="C13|C13.R2|append_batch|%s conditional" % k)
     fh = ctx.fn(HAVE_FROM)
     if need(ctx, P, rule, "impl From<&BitfieldUpdate> for Have", fh):
         rets = [t for _, _, t in ret_assigns(fh)]
